@@ -3,6 +3,7 @@
 # /verif/seeded/<ID>/<v>/ (with verify.txt), run the property's check against it (quick, thorough if quick is silent) and append the
 # outcome to /verif/seeded/sweep.tsv
 cd /verif || exit 2
+export SEEDWT_HEAD=1
 for x in "$@"; do
   id=$(echo "$x" | cut -c1-3); v=$(echo "$x" | cut -c4-)
   src=/tmp/seed-out/$x
